@@ -74,15 +74,15 @@ def ops_of(path):
     for s in path:
         if s["op"] == "ReplaceAll":
             out.append(["ReplaceAll", s["f"]])
-        elif s["op"] in ("MarkBegin", "MarkEnd"):
+        elif s["op"] in ("MarkBegin", "MarkEnd", "Mark"):
             out.append([s["op"], "obj%d" % s["o"], s["k"]])
         else:
             out.append([s["op"], "addr%d" % s["a"], s["t"], ("obj%d" % s["o"]) if s["o"] else "fresh"])
     return out
 
 
-def emit(ctx, cfg, tag, mode="mc", **kw):
-    r = ctx.tlc("host", "HostSetGen", cfg, mode=mode, workers=1, deadlock=False, timeout=900, **kw)
+def emit(ctx, cfg, tag, mode="mc", module="HostSetGen", **kw):
+    r = ctx.tlc("host", module, cfg, mode=mode, workers=1, deadlock=False, timeout=900, **kw)
     if r.timeout or (r.error and not r.prints):
         raise kit.Inconclusive("behaviour emission %s failed: %s" % (cfg, r.error[:500]))
     paths = [p for (t, p) in r.prints if t == tag]
@@ -155,6 +155,15 @@ def run(ctx):
         ctx.mc("host", "HostSet", "MC_HostSet_%s.cfg" % variant, workers=4, timeout=300, expect_violated=ALL_INVS, count=False)
     for inv in ("UsableIsPreferredTier", "RemovedNeverReported", "RemovedClosesEstablished"):
         ctx.mc("host", "HostSet", "MC_HostSet_pinned_%s.cfg" % inv, workers=4, timeout=300, expect_violated=[inv], count=False)
+    # publication to lock-free readers: every mutation is one linearization point; the variants "lazy rebuild by the
+    # reader, store after unlock", "re-add publishes an intermediate list", "ReplaceAll publishes after every removal"
+    # must each violate
+    ctx.mc("host", "HostSetPub", "MC_HostSetPub_atomic%s.cfg" % ("" if t else "_quick"), workers=8, timeout=900)
+    ctx.mc("host", "HostSetPub", "MC_HostSetPub_lazy.cfg", workers=2, timeout=300, expect_violated=["PublishedIsCurrent"], count=False)
+    ctx.mc("host", "HostSetPub", "MC_HostSetPub_readd.cfg", workers=2, timeout=300, expect_violated=["LinearizableHealthy"], count=False)
+    ctx.mc("host", "HostSetPub", "MC_HostSetPub_replace.cfg", workers=2, timeout=300, expect_violated=["LinearizableHealthy"], count=False)
+    if t:
+        ctx.mc("host", "HostSetPub", "MC_HostSetPub_lazy_lin.cfg", workers=4, timeout=300, expect_violated=["LinearizableHealthy"], count=False)
     r = ctx.mc("host", "Health", "MC_Health.cfg", workers=2, timeout=300, coverage=True)
     ctx.check_vacuity(r, "Health")
     ctx.mc("host", "Health", "MC_Health_docreading.cfg", workers=1, timeout=120, expect_violated=["FlipsAtThreshold"], count=False)
@@ -236,6 +245,9 @@ def run(ctx):
                                    % (d, json.dumps(events[d[0] - 1])[:600]))
     report_found(ctx, found)
 
+    # ---- 3b. what readers observe WHILE the set changes (linearizability of Healthy() against the mutations)
+    readers_race(ctx)
+
     # ---- 4. health hysteresis on the real monitor
     r = ctx.tlc("host", "HealthGen", "Gen_Health.cfg", mode="mc", workers=1, deadlock=False, timeout=300)
     hpaths = [p for (tag, p) in r.prints if tag == "EDGE"]
@@ -272,10 +284,116 @@ def run(ctx):
                        "path of HealthGen + every outcome sequence of fixed length for thresholds {1,2,3}^2; non-trivial = the flag flips")
 
 
+RACE_SIG = {
+    "stale-after-quiescence": "stale-usable-list/after-quiescence",
+    "stale": "stale-usable-list/concurrent-reader",
+    "intermediate/readd": "intermediate-list-observed/readd",
+    "intermediate/replace-all": "intermediate-list-observed/replace-all",
+    "other": "non-linearizable-read/other",
+    "random-outside-window": "random-outside-window",
+}
+RACE_WHAT = {
+    "stale-usable-list/after-quiescence": "after the last mutation has returned and nothing changes any more, Healthy() still reports the list of "
+                                          "an earlier state (a removed / unhealthy host stays reported until the next mutation)",
+    "stale-usable-list/concurrent-reader": "a reader gets the usable list of a state that was over before its call began",
+    "intermediate-list-observed/readd": "while a stored address is re-added with a new host object a concurrent reader sees the usable list "
+                                        "WITHOUT that address (a list that is the usable set of no state)",
+    "intermediate-list-observed/replace-all": "during ReplaceAll a concurrent reader sees the lists published after each single removal "
+                                              "(partial / empty lists that are the usable set of no state)",
+}
+
+
+def readers_race(ctx):
+    """Free-running readers against a scripted mutator on the real host.Set (harness c15-readers)."""
+    t = ctx.thorough
+    scripts = emit(ctx, "Sim_HostSetPub.cfg", "SCRIPT", mode="sim", sim_num=(150 if t else 40), sim_depth=60, seed=ctx.seed, module="HostSetPubGen")
+    if len(scripts) < (100 if t else 30):
+        raise kit.Inconclusive("only %d mutation scripts" % len(scripts))
+    # mandatory strata
+    strata = {"readd-healthy-address": 0, "remove-usable-member": 0, "mark-unhealthy-usable-member": 0, "replace-all-with-overlap": 0}
+    for sc in scripts:
+        cache, allm = [], None
+        for st in sc:
+            before = set(cache)
+            stored = (allm or [0] * len(st["obs"]["all"]))
+            if st["op"] == "Add" and st["readd"]:
+                strata["readd-healthy-address"] += 1
+            if st["op"] == "Remove" and stored[st["a"] - 1] in before:
+                strata["remove-usable-member"] += 1
+            if st["op"] == "Mark" and st["k"] == "unhealthy" and st["o"] in before:
+                strata["mark-unhealthy-usable-member"] += 1
+            if st["op"] == "ReplaceAll" and any(stored[a] in before and st["obs"]["all"][a] in st["obs"]["cache"] for a in range(len(stored))):
+                strata["replace-all-with-overlap"] += 1
+            cache, allm = st["obs"]["cache"], st["obs"]["all"]
+    missing = [k for k, v in strata.items() if v == 0]
+    if missing:
+        raise kit.Inconclusive("mutation scripts lack the mandatory strata %s" % missing)
+    sfile = os.path.join(ctx.work, "scripts.ndjson")
+    rfile = os.path.join(ctx.work, "readers-results.ndjson")
+    kit.write_ndjson(sfile, scripts)
+    reps = 300 if t else 80
+    ctx.harness(["c15-readers", "-in", sfile, "-out", rfile, "-reps", str(reps), "-readers", "6"], timeout=1200)
+    res = kit.read_ndjson(rfile)
+    counts = collections.Counter()
+    example = {}
+    races = reads = 0
+    for r in res:
+        if r.get("err"):
+            raise kit.Inconclusive("c15-readers: " + r["err"])
+        races += r["races"]
+        reads += r["reads"]
+        ctx.case(key=["race", r["script"]], nontrivial=True, n=r["races"])
+        for k, v in (r.get("counts") or {}).items():
+            counts[k] += v
+        for v in r.get("viol") or []:
+            example.setdefault(v["class"] + ("|equals-earlier-state" if v["equalsS"] >= 0 and v["class"].startswith("intermediate") else ""),
+                               (v, scripts[v["script"]]))
+    # an observation that equals the list of an earlier state while a re-add / ReplaceAll is in its window can be an
+    # intermediate list or a stale one; if staleness is established independently (a stale list after quiescence, which
+    # intermediate publication cannot produce) it is counted as stale
+    stale_proven = counts["stale-after-quiescence"] > 0
+    merged = collections.Counter()
+    for k, v in counts.items():
+        cls, _, eq = k.partition("|")
+        if eq and stale_proven:
+            cls = "stale"
+            example.setdefault("stale", example.get(k))
+        merged[cls] += v
+        if eq and not stale_proven:
+            example.setdefault(cls, example.get(k))
+    ctx.cov["reader_races"] = {"scripts": len(scripts), "reps": reps, "mutations_raced": races, "observations": reads,
+                               "strata": strata, "violations": dict(merged)}
+    ctx.sample({"race_script": ops_of(scripts[0]), "lists_after_each_mutation": [st["obs"]["cache"] for st in scripts[0]]})
+    if races < 1000 or reads < races:
+        raise kit.Inconclusive("reader race driver unhealthy: %d mutations raced, %d observations" % (races, reads))
+    for cls, n in sorted(merged.items()):
+        sig = RACE_SIG.get(cls, "non-linearizable-read/" + cls)
+        ex = example.get(cls)
+        v, sc = ex if ex else ({}, [])
+        what = "%s [%d of %d raced mutations; e.g. script %s: Healthy() returned objects %s while the set went through %s (mutations %s); " \
+               "mutations completed before the call: %s, begun when it returned: %s]" % (
+                   RACE_WHAT.get(sig, sig), n, races, json.dumps(ops_of(sc)), v.get("observed"), v.get("window"), v.get("ops"), v.get("b"), v.get("a"))
+        ctx.violation(sig, what, {"kind": "c15-race", "script": sc, "observation": v, "reps": reps})
+
+
 def replay(ctx, rep):
     """bin/check <id> --replay <file>: re-execute the recorded path on the real host.Set."""
     ctx.build()
     art = rep["artefact"]
+    if art.get("kind") == "c15-race":
+        sfile = os.path.join(ctx.work, "scripts.ndjson")
+        rfile = os.path.join(ctx.work, "readers-results.ndjson")
+        kit.write_ndjson(sfile, [art["script"]])
+        ctx.harness(["c15-readers", "-in", sfile, "-out", rfile, "-reps", "3000", "-readers", "6"], timeout=600)
+        r = kit.read_ndjson(rfile)[0]
+        ctx.mc("host", "HostSetPub", "MC_HostSetPub_atomic_quick.cfg", workers=8, timeout=600)
+        ctx.case(key="race-replay", nontrivial=True, n=r["races"])
+        ctx.case(key=ops_of(art["script"]), nontrivial=True)
+        ctx.sample({"script": ops_of(art["script"]), "counts": r.get("counts")})
+        if r.get("counts"):
+            ctx.violation(rep.get("signature", "replayed"), "raced %d times: %s" % (r["races"], r["counts"]), art)
+        ctx.cov["rule"] = "replay of one mutation script against free-running readers"
+        return
     if art.get("kind") != "c15-path":
         raise kit.Inconclusive("replay of %s artefacts is not supported" % art.get("kind"))
     ctx.mc("host", "HostSet", "MC_HostSet_fixed_quick.cfg", workers=8, timeout=600)
